@@ -1,8 +1,10 @@
 import ArgMapper.Props.C05c
+import ArgMapper.Proofs.AnyOracle
 /-!
 # C05 / C06 (continued) — after the repair of F22 the chosen paths need not be shortest
 
-Property theorems only.  With the repaired walk (`hopCopies = true`, the default of `C01.stdCtx`) a named
+Property theorems only (helper lemmas in `ArgMapper/Proofs/AnyOracle.lean` and
+`ArgMapper/Proofs/AnyOracleClean.lean`).  With the repaired walk (`hopCopies = true`, the default of `C01.stdCtx`) a named
 vertex entered over the named-to-named edge holds the value it takes, so neither the "final value" panic
 nor the refusal of a satisfiable call depends any more on the oracle being legal: the statements of
 `C06.no_walk_panic_partial_final_set` and `C05.complete_single_legal` hold for **every** oracle (any
@@ -22,7 +24,8 @@ theorem no_walk_panic_any_oracle (e : TypeEnv) (ht : ImplTrans e)
     let r := callWith (C01.stdCtx e b funcs target beh) (callGraph {} e b funcs target false none) target fuel
               (initSt (callGraph {} e b funcs target false none).cg memo orc)
     r.1 ≠ .panic .finalValue ∧ r.1 ≠ .panic .setNotAssignable := by
-  sorry
+  intro r
+  exact AnyOracle.panic_core (C06.hyps_of e ht b funcs target hb hc hwf) beh fuel memo orc
 
 /-- **C05_complete_single (full label language, every oracle, repaired walk)** -/
 theorem complete_single_any_oracle (e : TypeEnv) (ht : ImplTrans e)
@@ -39,7 +42,7 @@ theorem complete_single_any_oracle (e : TypeEnv) (ht : ImplTrans e)
     let r := callWith (C01.stdCtx e b funcs target beh) (callGraph {} e b funcs target false none) target fuel
               (initSt (callGraph {} e b funcs target false none).cg memo orc)
     (∃ res, r.1 = .ok res) ∨ (∃ ε, r.1 = .convErr ε) ∨ (∃ ε res, r.1 = .targetErr ε res) ∨ (∃ w, r.1 = .badOracle w) := by
-  sorry
+  exact AnyOracle.single_core_any (C06.hyps_of e ht b funcs target hb hc hwf) beh hsi hkey hsat fuel hfuel memo orc
 
 /-- **C05_stable (full label language, repaired walk)** — on single-input sets, as long as no function reports an
 error, two runs that differ only in their oracles both succeed -/
@@ -58,6 +61,9 @@ theorem stable_any_oracle (e : TypeEnv) (ht : ImplTrans e)
               (initSt (callGraph {} e b funcs target false none).cg [] orc)).1
     (∀ w, run orc₁ ≠ .badOracle w) → (∀ w, run orc₂ ≠ .badOracle w) →
       (∃ r₁, run orc₁ = .ok r₁) ∧ (∃ r₂, run orc₂ = .ok r₂) := by
-  sorry
+  intro run h1 h2
+  have H := C06.hyps_of e ht b funcs target hb hc hwf
+  exact ⟨AnyOracle.stable_core H beh hne hsi hkey hsat fuel hfuel orc₁ h1,
+    AnyOracle.stable_core H beh hne hsi hkey hsat fuel hfuel orc₂ h2⟩
 
 end ArgMapper.C05
